@@ -11,6 +11,7 @@ int main(int argc, char** argv) {
   Args args = parse_args("C18", argc, argv, 240, 1500);
   Ctx ctx(args);
   BoxOpts o;
+  o.inplace = true;  // "whether or not other arguments alias each other": the part of a source outside the aliased output stays read-only
   o.cf = cfgs(args.thorough());
   if (args.thorough()) { o.Ns = {2, 4, 8, 16, 32, 64, 256, 1024}; o.all_strides = true; o.vmp_max_dim = 4; o.vmp_max_size = 5; }
   else { o.Ns = {2, 4, 8, 16, 32, 64}; }
@@ -40,7 +41,7 @@ int main(int argc, char** argv) {
     }, phase);
   };
   run_groups(groups, o, "module entry points");
-  BoxOpts ol = large_layer(args.thorough(), o.cf);
+  BoxOpts ol = large_layer(args.thorough(), o.cf); ol.inplace = true;
   std::vector<ApiGroup> lgroups = api_groups(ol);
   std::stable_sort(lgroups.begin(), lgroups.end(), [](const ApiGroup& a, const ApiGroup& b) { return a.N > b.N; });
   run_groups(lgroups, ol, "module entry points, large ring dimensions");
